@@ -16,12 +16,13 @@ class LineInfo:
         self.item_fn = None; self.item_tag = None
 
 
-def scan(path):
+def scan(path, owns_text=()):
     """returns (list of LineInfo indexed by 1-based line, obligations list)"""
     infos = [None]
     cur_file = None; cur_fn = None; cur_kind = None; cur_src = None
     in_vc = False; vc_kind = None; vc_origin = None; tag_props = None; tag_id = None; src_line = None
     item_fn = None; pending_item_tag = None; item_tag = None
+    text_tag = None; text_fn = None
     obligations = []   # dict(id, props, kind, fn, file, line)
     fns = []           # dict(name, kind(body|stub), src, label)
     lemma_tags = []
@@ -57,8 +58,15 @@ def scan(path):
                     if in_vc:
                         tag_props = props; tag_id = tid
                         obligations.append({"id": tid, "props": props, "kind": vc_kind, "fn": cur_fn, "fn_kind": cur_kind, "origin": vc_origin, "line": ln})
-                    else:
+                    elif line.startswith("//@"):
                         pending_item_tag = (props, tid)
+                    else:
+                        # indented tag outside a spliced block: clause of a trait-method contract in a spec text file
+                        text_tag = (props, tid)
+                        if cur_file in owns_text:
+                            obligations.append({"id": tid, "props": props, "kind": "trait-ensures", "fn": text_fn, "fn_kind": "body", "origin": cur_file, "line": ln})
+            elif cur_fn is None and line.startswith("    ") and re.match(r"^\s+fn (\w+)", line):
+                text_fn = re.match(r"^\s+fn (\w+)", line).group(1); text_tag = None
             elif cur_fn is None:
                 fm = FN_RE.match(line)
                 if fm and not line.startswith("        "):
@@ -73,6 +81,10 @@ def scan(path):
                 src_line = int(ms[0])
         li.file = cur_file; li.fn = cur_fn; li.fn_kind = cur_kind; li.fn_src = cur_src; li.in_vc = in_vc; li.vc_kind = vc_kind
         li.vc_origin = vc_origin; li.tag_props = tag_props; li.tag_id = tag_id; li.src_line = src_line; li.text = line
+        if cur_fn is not None or in_vc or s == "}":
+            text_tag = None
+        if text_tag and cur_fn is None and not in_vc:
+            li.tag_props = text_tag[0]; li.tag_id = text_tag[1]
         li.item_fn = item_fn if cur_fn is None else None
         li.item_tag = item_tag if cur_fn is None else None
         infos.append(li)
@@ -140,6 +152,17 @@ def classify(diag, infos, path, unit):
     if "postcondition not satisfied" in m:
         lab = [s for s in allin if (s.get("label") or "").startswith("failed this postcondition")]
         if lab:
+            lc = info_at(lab[0])
+            if lc is not None and not lc.in_vc and lc.fn is None and lc.tag_props:
+                # trait-method contract clause (spec text file); the failing body is where the primary span points
+                pi = None
+                for sp in allin:
+                    x = info_at(sp)
+                    if x is not None and x.fn and x.fn_kind == "body":
+                        pi = x
+                if pi is not None:
+                    out.update(kind="prop", props=list(lc.tag_props), id=lc.tag_id, fn=pi.fn, src=pi.fn_src, src_line=pi.src_line, gen_line=lab[0]["line_start"])
+                    return out
             from_clause(lab[0])
         elif prim:
             from_clause(prim[0])
